@@ -258,7 +258,7 @@ def rawlit_tail(rng):
     return b"\x28\xb5\x2f\xfd\x00" + bytes([wl]) + b"".join(blocks), bytes(h.out)
 
 
-def biglit_frame(rng):
+def biglit_frame(rng, info=False):
     """valid single-block frame whose compressed block has MORE than 64 KiB of literals (RLE or raw) and only a few (1..8) sequences with
     long literal runs and very long matches, regenerating close to 128 KiB: decoded into a destination with no spare room the literals are
     split between the end of the destination and the decoder's side buffer, and the hand-over falls among the last sequences; decoded into
@@ -296,9 +296,19 @@ def biglit_frame(rng):
         out += bytes([out[-1]]) * ml
     out += lits[lp:]
     if len(out) > 131072 or len(body) >= 131072:
-        return biglit_frame(rng)
+        return biglit_frame(rng, info)
     blk = ((len(body) << 3) | (2 << 1) | 1).to_bytes(3, "little") + body
-    return b"\x28\xb5\x2f\xfd\x00" + bytes([0x38]) + blk, bytes(out)      # window 128 KiB, no content size, no checksum
+    fr = b"\x28\xb5\x2f\xfd\x00" + bytes([0x38]) + blk      # window 128 KiB, no content size, no checksum
+    if not info:
+        return fr, bytes(out)
+    # where the literals are handed over from the destination-resident part (the first nlits - 64 KiB literals) to the side buffer:
+    # output position before that sequence, and how many literals of it still sit in the destination
+    D = nlits - 65536; cum = 0; pos = 0; hand = None
+    for (ll, ml) in seqs:
+        if cum + ll > D and hand is None:
+            hand = (pos, D - cum)
+        cum += ll; pos += ll + ml
+    return fr, bytes(out), hand
 
 
 def stream(rng):
